@@ -4,7 +4,7 @@
 
 package obykeyset
 
-//@ property C06
+//@ property C06 C07
 
 // A pipeline is created for one key tuple: its id (queue name, logger name) is the tuple joined with "," and its tag is
 // the tag template expanded over exactly this tuple. With util.lemmaJoinedInjective the id identifies the tuple as long
